@@ -376,6 +376,13 @@ def h_mf_encode(env, n, word_sets, canary=False):
             env.check_vec_eq(list(m.factors), coefs, f"from_qubitop(...).factors are the coefficients in term order [case {words}]")
             x, y, _ = A.d_vectors(dict(m.qubitoperator.terms), dict(zip(words, coefs)))
             env.check_vec_eq(x, y, "qubitoperator property returns the same operator")
+            # the exported operator is a separate object: in-place arithmetic on it must not reach the MultiformOperator
+            snap = snapshot(m)
+            ex = m.qubitoperator
+            ex *= 2
+            ex += _qop([((0, "X"),)], [1.0])
+            ex.terms.pop(next(iter(ex.terms)))
+            check_unchanged(env, snap, m, "in-place operations on the exported .qubitoperator leave the MultiformOperator unchanged")
             fac = _nparr(env, coefs)
             m2 = MultiformOperator.from_integerop(np.array(ints, dtype=np.int8).reshape(len(words), n), fac)
             x, y, _ = A.d_vectors(dict(m2.terms), dict(zip([A.ints_to_word(r) for r in ints], coefs)))
